@@ -632,6 +632,9 @@ def c06(cx, kwmap=None):
         elif name in ("MacroIdentifier", "MacroLabel"):
             if not (text.startswith("%") and len(text) > 1 and t_.is_name_start(text[1])):
                 bad = "macro identifier shape"
+            elif not all((ch.isalnum() or ch == "_") if ch.isascii() else t_.is_xid_continue(ch) for ch in text[2:]):
+                # the token is exactly %name: nothing after the name belongs to it (DESIGN 6.1)
+                bad = "macro identifier shape: characters after the name"
             elif kwmap is not None and text[1:].isascii() and kwmap.get(text[1:].upper(), (None, None))[1] is not None:
                 bad = "macro keyword lexed as identifier"
         elif name.startswith("Kwm"):
